@@ -372,7 +372,8 @@ where
     Other: AsRef<[u8]>,
 {
     fn eq(&self, other: &UnknownRecordData<Other>) -> bool {
-        self.data.as_ref().eq(other.data.as_ref())
+        self.rtype == other.rtype
+            && self.data.as_ref().eq(other.data.as_ref())
     }
 }
 
@@ -390,7 +391,7 @@ where
         &self,
         other: &UnknownRecordData<Other>,
     ) -> Option<Ordering> {
-        self.data.as_ref().partial_cmp(other.data.as_ref())
+        Some(self.canonical_cmp(other))
     }
 }
 
@@ -401,13 +402,17 @@ where
     Other: AsRef<[u8]>,
 {
     fn canonical_cmp(&self, other: &UnknownRecordData<Other>) -> Ordering {
-        self.data.as_ref().cmp(other.data.as_ref())
+        // Data of different record types is never equal.
+        match self.rtype.cmp(&other.rtype) {
+            Ordering::Equal => self.data.as_ref().cmp(other.data.as_ref()),
+            other => other,
+        }
     }
 }
 
 impl<Octs: AsRef<[u8]>> Ord for UnknownRecordData<Octs> {
     fn cmp(&self, other: &Self) -> Ordering {
-        self.data.as_ref().cmp(other.data.as_ref())
+        self.canonical_cmp(other)
     }
 }
 
